@@ -13,6 +13,11 @@ def validate_encoded(string):
     raise gfapy.FormatError(
       "{} is not a valid GFA2 identifier\n".format(repr(string))+
       "(it contains spaces or non-printable characters)")
+  if string == "*":
+    # (the line could not be found under this name, nor referred to)
+    raise gfapy.FormatError(
+      "'*' is not a valid GFA2 identifier\n"+
+      "(it is the placeholder: an identifier is required here)")
 
 def validate_decoded(obj):
   if isinstance(obj, gfapy.Line):
